@@ -1,6 +1,7 @@
 package main
 
 import (
+	"go/token"
 	"go/types"
 	"sort"
 	"strings"
@@ -384,6 +385,15 @@ func checkC18(e *Engine, r *Report) {
 			}
 		}
 		r.Check(okI, "InitGenesis › writes code hash, code and storage of every account", e.Pos(ini.Pos()), "SetCodeHash / SetCode / SetState in the account loop", "InitGenesis does not restore one of code hash, code, storage")
+		// import completeness: an iteration over a genesis collection handles its whole record on every path that completes
+		for _, mod := range []struct{ pkg, fn string }{{EV + "/x/evm", "InitGenesis"}, {EV + "/x/cpc", "InitGenesis"}, {EV + "/x/feemarket", "InitGenesis"}} {
+			f := e.TryFn(mod.pkg, mod.fn)
+			if f == nil {
+				continue
+			}
+			probs := importLoopProblems(e, f)
+			r.Check(len(probs) == 0, shortPkg(mod.pkg)+".InitGenesis › every record imported whole", e.Pos(f.Pos()), "no completed iteration skips a nested collection; no write is conditional on what the store already holds", "InitGenesis can import a record partially: "+strings.Join(probs, "; "))
+		}
 		// params on both sides for evm and feemarket
 		for _, q := range []struct{ root, keeper string }{{EV + "/x/evm", pkgEvmKeeper}, {EV + "/x/feemarket", pkgFmKeeper}} {
 			ex, in := e.Fn(q.root, "ExportGenesis"), e.Fn(q.root, "InitGenesis")
@@ -438,4 +448,106 @@ func reachesReturnWithoutHeader(fn *ssa.Function, b *ssa.BasicBlock, l *Loop) bo
 		work = append(work, x.Succs...)
 	}
 	return false
+}
+
+// importLoopProblems: for every outermost loop of an InitGenesis function
+//  (b) each nested loop (a sub-collection of the record: the storage entries of an account) is visited on every path on
+//      which the iteration completes — with the nested loop's header removed the back edge must be unreachable from the
+//      body entry; paths that panic (validation) do not complete;
+//  (a) a branch inside the loop both sides of which let the iteration complete must not be decided by what the store already
+//      holds (a call that takes the context): importing is a function of the genesis record alone, otherwise the order of the
+//      records — or an earlier record — changes what is written for a later one.
+func importLoopProblems(e *Engine, fn *ssa.Function) []string {
+	var out []string
+	loops := loopsOf(fn)
+	for _, l := range loops {
+		outermost := true
+		for _, o := range loops {
+			if o != l && o.Body[l.Header] {
+				outermost = false
+			}
+		}
+		if !outermost {
+			continue
+		}
+		var entries []*ssa.BasicBlock
+		for _, s := range l.Header.Succs {
+			if l.Body[s] && s != l.Header {
+				entries = append(entries, s)
+			}
+		}
+		completes := func(from *ssa.BasicBlock, removed *ssa.BasicBlock) bool {
+			seen := map[*ssa.BasicBlock]bool{}
+			work := []*ssa.BasicBlock{from}
+			for len(work) > 0 {
+				b := work[len(work)-1]
+				work = work[:len(work)-1]
+				if seen[b] || b == removed || !l.Body[b] {
+					continue
+				}
+				if b == l.Header {
+					return true
+				}
+				seen[b] = true
+				work = append(work, b.Succs...)
+			}
+			return false
+		}
+		for _, in := range loops {
+			if in == l || !l.Body[in.Header] {
+				continue
+			}
+			for _, en := range entries {
+				if completes(en, in.Header) {
+					out = append(out, "an iteration of the loop at "+e.Pos(loopPos(l))+" can complete without visiting the nested loop at "+e.Pos(loopPos(in))+" (a `continue` or branch skips the record's sub-collection)")
+					break
+				}
+			}
+		}
+		for b := range l.Body {
+			i, ok := lastIf(b)
+			if !ok || b == l.Header {
+				continue
+			}
+			isHeader := false
+			for _, in := range loops {
+				if in.Header == b {
+					isHeader = true
+				}
+			}
+			if isHeader || !completes(b.Succs[0], nil) || !completes(b.Succs[1], nil) {
+				continue
+			}
+			sl := backSlice(i.Cond, SliceOpts{ThroughCallArgs: alwaysThrough})
+			if sl.Has(func(v ssa.Value) bool {
+				c, isC := v.(*ssa.Call)
+				if !isC {
+					return false
+				}
+				for _, a := range c.Call.Args {
+					if isSdkContext(a.Type()) || a.Type().String() == "context.Context" {
+						return true
+					}
+				}
+				return false
+			}) {
+				out = append(out, "the branch at "+e.Pos(i.Cond.Pos())+" inside the import loop is decided by a store read (what was imported before), and both outcomes let the iteration complete")
+			}
+		}
+	}
+	sort.Strings(out)
+	return out
+}
+
+// loopPos: the smallest source position inside the loop (headers of range loops carry no positions).
+func loopPos(l *Loop) token.Pos {
+	best := token.NoPos
+	for b := range l.Body {
+		for _, in := range b.Instrs {
+			if p := in.Pos(); p != token.NoPos && (best == token.NoPos || p < best) {
+				best = p
+			}
+		}
+	}
+	return best
 }
